@@ -7,7 +7,9 @@ import (
 
 	"github.com/libsv/go-bk/bec"
 	"github.com/libsv/go-bt/v2"
+	"github.com/libsv/go-bt/v2/bscript"
 	"github.com/libsv/go-bt/v2/bscript/interpreter"
+	"github.com/libsv/go-bt/v2/bscript/interpreter/scriptflag"
 	"github.com/libsv/go-bt/v2/sighash"
 	"github.com/libsv/go-bt/v2/unlocker"
 
@@ -304,7 +306,34 @@ func c04Verify(t *txref.Tx, pos int, forkid bool, stale *txref.In) error {
 	if forkid {
 		opts = append(opts, interpreter.WithForkID())
 	}
-	return interpreter.NewEngine().Execute(opts...)
+	err := interpreter.NewEngine().Execute(opts...)
+	// the same question put to an Engine value that has already worked under the OTHER digest
+	// regime (and with other flag sets): an engine is a stateless validator, its verdict is the same
+	tx2 := toLib(t)
+	tx2.Inputs[pos].PreviousTxScript, tx2.Inputs[pos].PreviousTxSatoshis = tx.Inputs[pos].PreviousTxScript, tx.Inputs[pos].PreviousTxSatoshis
+	opts2 := []interpreter.ExecutionOptionFunc{interpreter.WithTx(tx2, pos, prev), interpreter.WithAfterGenesis()}
+	if forkid {
+		opts2 = append(opts2, interpreter.WithForkID())
+	}
+	eng := interpreter.NewEngine()
+	one, tru := bscript.NewFromBytes([]byte{0x51}), bscript.NewFromBytes([]byte{0x51})
+	_ = eng.Execute(interpreter.WithScripts(one, tru), interpreter.WithAfterGenesis(), interpreter.WithForkID())
+	_ = eng.Execute(interpreter.WithScripts(one, tru), interpreter.WithP2SH(), interpreter.WithFlags(scriptflag.VerifyStrictEncoding|scriptflag.VerifyLowS|scriptflag.VerifyNullFail|scriptflag.VerifyCleanStack))
+	_ = eng.Execute(interpreter.WithScripts(one, tru))
+	if !forkid {
+		_ = eng.Execute(interpreter.WithScripts(one, tru), interpreter.WithForkID(), interpreter.WithAfterGenesis())
+	}
+	if err2 := eng.Execute(opts2...); (err2 == nil) != (err == nil) {
+		return &usedEngineDiffers{fresh: err, used: err2}
+	}
+	return err
+}
+
+// usedEngineDiffers: a fresh Engine and one that has validated other things before disagree.
+type usedEngineDiffers struct{ fresh, used error }
+
+func (u *usedEngineDiffers) Error() string {
+	return fmt.Sprintf("a fresh engine says %v, an engine that has validated under other flags before says %v", u.fresh, u.used)
 }
 
 var c04Keys = testPrivKeys(8)
@@ -352,6 +381,9 @@ func c04Check(c c04Case) (fs []rep.Finding) {
 		stale = &o
 	}
 	err := c04Verify(ref1, pos1, forkid, stale)
+	if u, ok := err.(*usedEngineDiffers); ok {
+		return append(fs, rep.F("used-engine-verdict-differs|"+alg, u.Error()))
+	}
 	accepted := err == nil
 	want := bytes.Equal(c04Digest(ref0, c.Pos, c.HT), c04Digest(ref1, pos1, c.HT))
 	if c.Mut == mSpentScript && c.Param == 0 {
@@ -484,7 +516,7 @@ func c04Resign(c c04Case, priv *bec.PrivateKey, lock []byte) (fs []rep.Finding) 
 
 func init() {
 	p := register(&Prop{ID: "C04", Level: "exploration",
-		Rule: "exhaustive product: 4 (quick) / 8 (thorough) private keys (incl. 1 and n-1) x shapes nIn 1..3 x nOut 0..3 x every signed position x spent script {P2PKH, P2PKH inscription, inscription with an OP_RETURN trailer pushing 1,2,3,4,75,76 bytes, inscriptions whose envelope uses non-minimal pushes (content through OP_PUSHDATA1/2/4, tag and content type through PUSHDATA1/2, key hash through PUSHDATA1)} x the 6 FORKID hash types verified with the FORKID flag and the 6 legacy types verified without it x EVERY single-field mutation class at every position, numeric fields changed in their lowest and in their highest byte (version, locktime, each input's txid/vout/sequence, another input's unlocking script / spent value, each output's value/script, output insertion at every gap / removal, input insertion at every gap / removal, adjacent swaps, spent value, spent script; the spent-output mutations also with the transaction object still carrying the signer-side record of the spent output). The input is signed through Tx.FillInput + unlocker.Simple and verified with interpreter.Execute(WithTx, WithAfterGenesis[, WithForkID]). plus sign -> in-place edit of the same Tx object -> sign again -> verify sequences (10 edit kinds), through FillInput and - every input spending the same script - through FillAllInputs twice (every input must verify afterwards); and transactions whose inputs are locked to different keys, all signed by ONE unlocker object re-keyed before each input. Oracle: unmutated accepted; re-signed accepted; mutated accepted iff the reference digest (certified on the node vectors) of the mutated context equals the original digest. distinct_nontrivial = distinct (shape, position, hash type, mutation) verifications",
+		Rule: "every verification is put to a fresh Engine and to an Engine value that has validated under other flag sets (the other digest regime included) before - the verdicts must agree; exhaustive product: 4 (quick) / 8 (thorough) private keys (incl. 1 and n-1) x shapes nIn 1..3 x nOut 0..3 x every signed position x spent script {P2PKH, P2PKH inscription, inscription with an OP_RETURN trailer pushing 1,2,3,4,75,76 bytes, inscriptions whose envelope uses non-minimal pushes (content through OP_PUSHDATA1/2/4, tag and content type through PUSHDATA1/2, key hash through PUSHDATA1)} x the 6 FORKID hash types verified with the FORKID flag and the 6 legacy types verified without it x EVERY single-field mutation class at every position, numeric fields changed in their lowest and in their highest byte (version, locktime, each input's txid/vout/sequence, another input's unlocking script / spent value, each output's value/script, output insertion at every gap / removal, input insertion at every gap / removal, adjacent swaps, spent value, spent script; the spent-output mutations also with the transaction object still carrying the signer-side record of the spent output). The input is signed through Tx.FillInput + unlocker.Simple and verified with interpreter.Execute(WithTx, WithAfterGenesis[, WithForkID]). plus sign -> in-place edit of the same Tx object -> sign again -> verify sequences (10 edit kinds), through FillInput and - every input spending the same script - through FillAllInputs twice (every input must verify afterwards); and transactions whose inputs are locked to different keys, all signed by ONE unlocker object re-keyed before each input. Oracle: unmutated accepted; re-signed accepted; mutated accepted iff the reference digest (certified on the node vectors) of the mutated context equals the original digest. distinct_nontrivial = distinct (shape, position, hash type, mutation) verifications",
 	})
 	sp := NewSpace(p, "sign-mutate-verify", c04Check)
 	p.Run = func(r *rep.Run, thorough bool) {
